@@ -8,6 +8,7 @@ model with failure atomicity and idempotence.
 """
 import itertools
 import math
+import os
 import warnings
 
 import hypothesis
@@ -58,7 +59,7 @@ def files_case(draw):
     cps = [draw(VALS) for _ in Ts]
     rng = [min([T_ref] + Ts) - draw(st.sampled_from([0.0, 50.0])), max([T_ref] + Ts) + draw(st.sampled_from([0.0, 700.0]))]
     has_range = bool(ncp) or draw(st.booleans())
-    nfiles = draw(st.sampled_from([1, 2, 2, 3, 3, 4, 4]))
+    nfiles = draw(st.sampled_from([1, 2, 2, 3, 3, 4, 4, 5, 5]))      # 5 = an include-only root plus four data files
     data = []                      # (kind, key, value)
     if H is not None:
         data.append(['H', None, H])
@@ -72,11 +73,14 @@ def files_case(draw):
         data.append(['H', None, 1.5])
         H = 1.5
     assign = []
+    first = 1 if nfiles == 5 else 0
     for d in data:
-        sub = draw(st.lists(st.integers(0, nfiles - 1), min_size=1, max_size=nfiles, unique=True))
+        sub = draw(st.lists(st.integers(first, nfiles - 1), min_size=1, max_size=nfiles - first, unique=True))
         assign.append(sorted(sub))
     # include tree: parent of file i (i >= 1) among earlier files; file 0 is library.yaml
     parent = [None] + [draw(st.integers(0, i - 1)) for i in range(1, nfiles)]
+    if nfiles == 5 and draw(st.booleans()):
+        parent = [None, 0, 0, 1, 2]          # two branches, each with a file of its own below it
     child_order = draw(st.permutations(range(1, nfiles))) if nfiles > 1 else []
     extra_edge = None
     if nfiles >= 3 and draw(st.integers(0, 3)) == 0:
@@ -111,7 +115,7 @@ def files_case(draw):
             conflict = [i, f, delta]
     return dict(kind='files', T_ref=T_ref, data=data, assign=assign, nfiles=nfiles, parent=parent,
                 child_order=list(child_order), extra_edge=extra_edge, variant=variant, names=names, canon=spell[0],
-                conflict=conflict, root_holds_data=draw(st.booleans()))
+                conflict=conflict, root_holds_data=draw(st.booleans()), subdirs=draw(st.booleans()) or (nfiles == 5 and draw(st.booleans())))
 
 
 def fragment(case, f, override=None):
@@ -158,6 +162,22 @@ def write_tree(tl, case, frags, names):
     if case['extra_edge']:
         children[case['extra_edge'][0]].append(case['extra_edge'][1])
     fn = ['library.yaml'] + ['part%d.yaml' % i for i in range(1, n)]
+    rel = {}                      # (parent, child) -> include string as written in the parent
+    if case.get('subdirs'):
+        # files live in sub-directories; files at the same depth of different branches carry the SAME relative name
+        # (d1/part.yaml and d2/part.yaml each include their own 'more2.yaml'), includes are relative to the including file
+        depth = {0: 0}
+        for i in range(1, n):
+            depth[i] = depth[case['parent'][i]] + 1
+        for i in range(1, n):
+            par = case['parent'][i]
+            if par == 0:
+                fn[i] = 'd%d/part.yaml' % i
+            else:
+                fn[i] = os.path.join(os.path.dirname(fn[par]), 'more%d_%d.yaml' % (depth[i], sum(1 for j in range(1, i) if case['parent'][j] == par)))
+        for par in range(n):
+            for c in children[par]:
+                rel[(par, c)] = os.path.relpath(fn[c], os.path.dirname(fn[par]) or '.')
     for i in range(n):
         groups = {}
         if frags[i] is not None:
@@ -168,7 +188,7 @@ def write_tree(tl, case, frags, names):
                 groups[names[i]] = frags[i]
         if i == 0:
             groups['O(C)2'] = dict(T_ref=298.15, H=-3.25, S=4.5, cp=[[300.0, 1.0], [500.0, 2.0]], range=[298.0, 1000.0])
-        tl.write(fn[i], LG.render_file(groups, lambda nm: ND, include=[fn[c] for c in children[i]]))
+        tl.write(fn[i], LG.render_file(groups, lambda nm: ND, include=[rel.get((i, c), fn[c]) for c in children[i]]))
     return fn
 
 
